@@ -99,13 +99,21 @@ func judgeOutput(cwd string, noFmt bool, res *simrt.Result, feeds []fedCall, pt 
 			return "exit0-incomplete", "exit0-incomplete:file-missing", fmt.Sprintf("thriftgo exited with status 0 but %s is not on the disk", p), true
 		}
 		want := string(f.Content)
+		// the post-processed content: gofmt's rendering for .go files that gofmt accepts (unless
+		// no_fmt), the content itself otherwise - not "either of the two"
+		if !noFmt && strings.HasSuffix(p, ".go") {
+			if ff, err := format.Source([]byte(want)); err == nil {
+				if string(ff) == string(got) {
+					continue
+				}
+				if string(got) == want {
+					return "persist:wrong-content", "persist:not-formatted", fmt.Sprintf("%s was written as handed in (%d bytes) although gofmt accepts it and no_fmt is not set: the file was not post-processed", p, len(got)), true
+				}
+				return "persist:wrong-content", "persist:wrong-content", fmt.Sprintf("%s does not hold the (post-processed) content of its own entry: %d bytes on disk, %d bytes handed in", p, len(got), len(want)), true
+			}
+		}
 		if string(got) == want {
 			continue
-		}
-		if !noFmt && strings.HasSuffix(p, ".go") {
-			if ff, err := format.Source([]byte(want)); err == nil && string(ff) == string(got) {
-				continue
-			}
 		}
 		return "persist:wrong-content", "persist:wrong-content", fmt.Sprintf("%s does not hold the (post-processed) content of its own entry: %d bytes on disk, %d bytes handed in", p, len(got), len(want)), true
 	}
